@@ -40,6 +40,8 @@ type Param struct {
 type Fn struct {
 	Recv   bool   // pointer-receiver method (the receiver comes from a package-level variable)
 	RecvU  bool   `json:",omitempty"` // the receiver type is U instead of T
+	// RecvForm: how the receiver is declared: 0 "(t *T)", 1 unnamed "(*T)", 2 blank "(_ *T)"
+	RecvForm int `json:",omitempty"`
 	Name   string `json:",omitempty"` // method name; the same name exists on both receiver types
 	Defer  bool   `json:",omitempty"` // calls the next function of the chain in a deferred call (its frame is then reported at its closing brace)
 	InB    bool   `json:",omitempty"` // declared in b.go instead of main.go: a traceback walks through both files in any pattern
@@ -161,6 +163,7 @@ func genProg(t *rapid.T, nchains int) c19Prog {
 			if fn.Recv {
 				// methods of the two receiver types share their names (run0, run1, ...)
 				fn.RecvU = rapid.Bool().Draw(t, "recvU")
+				fn.RecvForm = rapid.SampledFrom([]int{0, 0, 1, 2}).Draw(t, "recvForm")
 				if fn.RecvU {
 					fn.Name = fmt.Sprintf("run%d", nU)
 					nU++
@@ -270,7 +273,7 @@ func (p *c19Prog) sources() map[string]string {
 			}
 			w.WriteString("\n//go:noinline\nfunc ")
 			if fn.Recv {
-				w.WriteString("(t *" + fn.recvType() + ") ")
+				w.WriteString("(" + []string{"t ", "", "_ "}[fn.RecvForm%3] + "*" + fn.recvType() + ") ")
 			}
 			w.WriteString(p.name(c, f) + "(")
 			for i, pr := range fn.Params {
